@@ -325,3 +325,8 @@ Definition to_uint64_att (s tail : list Z) : res Z := do b <- c_view s tail; str
    window itself: from_string s / is_valid s, whatever the tail. *)
 Definition from_string_view (s tail : list Z) : res Z := do _ <- c_view s tail; from_string s.
 Definition is_valid_view (s tail : list Z) : res bool := do _ <- c_view s tail; is_valid s.
+
+(* String::fromBase64(const String&) AS FOUND took its input pointer through the same view (`(const char* )data`) and then
+   read exactly data.length() bytes from it; as repaired (fixes/C18/03) it reads the String's text directly:
+   from_base64 s, whatever lies behind the window. *)
+Definition from_base64_view (s tail : list Z) : res (list Z) := do _ <- c_view s tail; from_base64 s.
